@@ -139,6 +139,7 @@ class Handler(GopherRequestHandler):
 
 
 _logsink = []
+SERVER_PORT = 70      # advertised port of the fake server; a World may change it (spec "server_port")
 
 # a request that does not finish is a finding, not a hang of the harness: interrupt it
 import signal  # noqa: E402
@@ -255,7 +256,7 @@ def serve_once(config, data, tls=False, trace=False, client=("10.77.77.77", "777
     rfile = io.BytesIO(data)
     wfile = wfile if wfile is not None else KeepBytesIO()
     req = (MockSSLRequest if tls else MockRequest)(rfile, wfile)
-    server = FakeServer(config)
+    server = FakeServer(config, port=SERVER_PORT)
     h = Handler(req, client, server)
     del _logsink[:]
     exc = None
@@ -297,6 +298,8 @@ class World:
         build_tree(self.root, spec.get("tree", []))
         build_tree(self.parent, spec.get("outside", []))
         self.spec = spec
+        global SERVER_PORT
+        SERVER_PORT = int(spec.get("server_port", 70))
         self.configure()
 
     def configure(self):
